@@ -45,6 +45,9 @@ type vfC40Case struct {
 	// WriterStart (same scale as Starts) until every worker has finished.
 	Writers     []int `json:"writers,omitempty"`
 	WriterStart int   `json:"writer_start,omitempty"`
+	// Loopers: one goroutine per entry that repeats the op kind given by the value (getters, GetStats,
+	// collection getters, ...) with a running argument, from WriterStart until every worker has finished.
+	Loopers []int `json:"loopers,omitempty"`
 }
 
 const vfC40Kinds = 18
@@ -331,10 +334,25 @@ func vfC40Run(v *vfT, c vfC40Case) {
 			}
 		})
 	}
+	for i, kind := range c.Loopers {
+		i, kind := i, kind
+		writers.Go(fmt.Sprintf("looper%d(kind %d)", i, kind), func() {
+			select {
+			case <-phase[c.WriterStart&3]:
+			case <-time.After(1500 * time.Millisecond):
+			}
+			for n := 0; !stopWriters.Load(); n++ {
+				vfC40Do(pcA, st, vfC40Op{Kind: kind, Arg: n}, fmt.Sprintf("L%d.%d", i, n))
+				if n%8 == 7 {
+					time.Sleep(20 * time.Microsecond)
+				}
+			}
+		})
+	}
 	ok, dump := vfWaitActors(actors, 90*time.Second)
 	stopWriters.Store(true)
 	if okw, dumpw := vfWaitActors(writers, 30*time.Second); !okw {
-		v.Violation("C40/deadlock", "a write on a local track did not return within 30s after every other call had returned (or hung with them): %s; other actors: %s", dumpw, dump)
+		v.Violation("C40/deadlock", "a repeated call (local-track write or getter loop) did not return within 30s after every other call had returned (or hung with them): %s; other actors: %s", dumpw, dump)
 	}
 	closed := vfNewActors()
 	closed.Go("closeA", func() { _ = pcA.Close() })
@@ -346,7 +364,10 @@ func vfC40Run(v *vfT, c vfC40Case) {
 	if !ok2 {
 		v.Violation("C40/deadlock", "Close did not return within 60s after the concurrent phase: %s", dump2)
 	}
-	if len(c.Workers)+len(c.Writers) >= 2 {
+	if len(c.Loopers) > 0 {
+		v.Label("getter-loops")
+	}
+	if len(c.Workers)+len(c.Writers)+len(c.Loopers) >= 2 {
 		v.NonTrivial()
 	}
 	if c.CloseBy >= 0 && c.CloseBy < len(c.Workers) {
@@ -364,7 +385,7 @@ func vfC40Run(v *vfT, c vfC40Case) {
 }
 
 var vfC40Opts = vfOpts{
-	Rule: "randomized concurrent programs under the race detector: one negotiator goroutine (1-3 offer/answer rounds with a live peer) plus 2-8 workers running drawn sequences of 18 kinds of public API calls (AddTrack, RemoveTrack, AddTransceiver*, CreateDataChannel, getters, GetStats, WriteSample singly and in bursts, Send, ReplaceTrack, sender/transceiver Stop, ...), each worker starting at a drawn moment of the first exchange (at once / local offer set / exchange complete but transports connecting / connected), a drawn worker closing the connection; a second family adds 1-4 goroutines writing continuously on the local tracks against workers dominated by RemoveTrack / ReplaceTrack / Stop / Close; GOMAXPROCS in {2,4,16}; non-trivial = at least two concurrent goroutines besides the negotiator",
+	Rule: "randomized concurrent programs under the race detector: one negotiator goroutine (1-3 offer/answer rounds with a live peer) plus 2-8 workers running drawn sequences of 18 kinds of public API calls (AddTrack, RemoveTrack, AddTransceiver*, CreateDataChannel, getters, GetStats, WriteSample singly and in bursts, Send, ReplaceTrack, sender/transceiver Stop, ...), each worker starting at a drawn moment of the first exchange (at once / local offer set / exchange complete but transports connecting / connected), a drawn worker closing the connection; a third family adds 2-4 goroutines repeating the read-side calls continuously; a second family adds 1-4 goroutines writing continuously on the local tracks against workers dominated by RemoveTrack / ReplaceTrack / Stop / Close; GOMAXPROCS in {2,4,16}; non-trivial = at least two concurrent goroutines besides the negotiator",
 	Assumptions: []string{"schedules are sampled (Gosched perturbation, GOMAXPROCS), not enumerated: a race that needs a specific pre-emption is found only if the detector observes both accesses unsynchronised in some run",
 		"a data race report ends the process (GORACE=halt_on_error=1); the case in flight is the replay together with the report"},
 }
@@ -415,6 +436,35 @@ func TestVerif_C40_Writers(t *testing.T) {
 			}
 			c.Workers = append(c.Workers, ops)
 			c.Starts = append(c.Starts, rapid.SampledFrom([]int{1, 2, 2, 2, 3}).Draw(v.R, "start"))
+		}
+		c.CloseBy = rapid.IntRange(-1, nw-1).Draw(v.R, "closeby")
+		return c
+	}, vfC40Run)
+}
+
+// TestVerif_C40_Storm: 2-4 goroutines repeat the read-side calls (state getters, collection
+// getters, sender/receiver getters, GetStats, SCTP getters, GetConfiguration) continuously while
+// 1-3 workers run drawn mutating sequences and the negotiator performs its exchange: lock
+// re-entrancy and lock-order problems between readers and writers need many overlaps to show.
+func TestVerif_C40_Storm(t *testing.T) {
+	vfProperty(t, "C40", vfC40Opts, func(v *vfT) vfC40Case {
+		c := vfC40Case{
+			Rounds:      rapid.IntRange(1, 2).Draw(v.R, "rounds"),
+			GoMaxProcs:  rapid.SampledFrom([]int{2, 4, 16}).Draw(v.R, "gomaxprocs"),
+			PreMedia:    rapid.IntRange(0, 2).Draw(v.R, "premedia"),
+			Graceful:    rapid.Bool().Draw(v.R, "graceful"),
+			WriterStart: rapid.SampledFrom([]int{0, 0, 1, 2, 3}).Draw(v.R, "loopstart"),
+		}
+		c.Loopers = rapid.SliceOfN(rapid.SampledFrom([]int{5, 6, 7, 7, 7, 8, 11, 13}), 2, 4).Draw(v.R, "loopers")
+		nw := rapid.IntRange(1, 3).Draw(v.R, "workers")
+		for w := 0; w < nw; w++ {
+			n := rapid.IntRange(2, 8).Draw(v.R, "nops")
+			var ops []vfC40Op
+			for i := 0; i < n; i++ {
+				ops = append(ops, vfC40Op{Kind: rapid.SampledFrom([]int{0, 1, 2, 3, 4, 5, 6, 8, 12, 15, 16}).Draw(v.R, "kind"), Arg: rapid.IntRange(0, 7).Draw(v.R, "arg"), Yields: rapid.SampledFrom([]int{0, 1, 30, 300}).Draw(v.R, "yields")})
+			}
+			c.Workers = append(c.Workers, ops)
+			c.Starts = append(c.Starts, rapid.SampledFrom([]int{0, 1, 2, 3}).Draw(v.R, "start"))
 		}
 		c.CloseBy = rapid.IntRange(-1, nw-1).Draw(v.R, "closeby")
 		return c
